@@ -30,6 +30,7 @@ type c03Env struct {
 	ir      []*keys.PrivateKey
 	cand    neotest.SingleSigner
 	blob    *cntBlob
+	blob2   *cntBlob // a live container of u1 without the meta flag and without eACL
 	cw      *cntWorld
 	strng   neotest.SingleSigner
 	watch   []util.Uint160
@@ -87,6 +88,8 @@ func newC03Env(n int) *c03Env {
 	e.cw = &cntWorld{c: c, fs: fs, cnt: e.h["container"], bal: e.h["balance"], nm: e.h["netmap"], nns: e.h["nns"], alpha: alpha, owners: []neotest.SingleSigner{e.u0, e.u1, e.strng}}
 	e.blob = e.cw.mkBlob(0, 0, 1, "")
 	must("put", c.Invoke(alpha, e.h["container"], "put", e.blob.value, detBytes("sig", 64), e.u0.Account().PublicKey().Bytes(), []byte{}, true))
+	e.blob2 = e.cw.mkBlob(1, 0, 90, "")
+	must("put2", c.Invoke(alpha, e.h["container"], "put", e.blob2.value, detBytes("sig", 64), e.u1.Account().PublicKey().Bytes(), []byte{}))
 	sk := chainkit.DetKey("c03-placement")
 	e.sigKeys = []*keys.PrivateKey{sk}
 	must("roster", c.Invoke(alpha, e.h["container"], "addNextEpochNodes", e.blob.id, 0, []any{sk.PublicKey().Bytes()}))
